@@ -2,6 +2,7 @@
 import common as C
 from props._runcommon import RUN_TRUSTED, RUN_ASSUMPTIONS, PropRunStream
 from run import selftest as W
+from run import witnesses2 as W2
 
 PROPERTY = "C01"
 LEAN_MODULES = ["LccModel.Props.C01", "LccModel.Props.C01Graph", "LccModel.Props.C01Run"]
@@ -41,7 +42,7 @@ class Run(PropRunStream):
     quick_cases = 270
     quick_seconds = 45
     p_interrupt = 0.2           # interrupted runs are ordinary cases since fix D11
-    corpus = [witness("D1 "), witness("D3 "), witness("D11 ")]
+    corpus = [witness("D1 "), witness("D3 "), witness("D11 ")] + W2.CONTROLS
 
 
 class RunPT(PropRunStream):
